@@ -77,7 +77,9 @@ CHECKS["C02"] = dict(
          "(3 embeddings, allocation-counting space); 3,840 (56k) runs of the 8 control planners on 3 systems (point, car with "
          "asymmetric control bounds, double integrator) x maps x durations x step sizes x budgets x seeds produce SolveReports "
          "whose facts come from an oracle independent of the library (own step function, own validity, own bounds and goal "
-         "distance); each is validated by TLC against ControlPathContract.tla (one clause per sentence of the property).",
+         "distance); half of the runs with a non-trivial budget continue with two further solve() calls on the same planner (one "
+         "report per call, listing the paths that call added); each report is validated by TLC against ControlPathContract.tla "
+         "(one clause per sentence of the property).",
     note="Propagation exhaustive for the integer integrator only; planner runs sampled on 2-D 4x4 maps; the oracle trusts that "
          "one step moves the system by less than half a cell.",
     technique="TLA+ statement-level spec + TLC exhaustive; exact case replay; TLC trace validation of solve reports",
@@ -139,7 +141,8 @@ CHECKS["C01"] = dict(
          "goal; model-determined facts: start/goal free, 8-reachability) and a bounded 4x4 part; a stratified sample (36 / "
          "250 + 40 configurations, every class of the enumeration represented) is instantiated for all 45 registered planners in R^2, SE(2), R^3, SE(3), a "
          "weighted compound, Reeds-Shepp and Dubins, with four query variants (single, several starts, GoalStates, "
-         "non-sampleable region) and with the planners' declared parameters swept through the ParamSet, under evaluation "
+         "non-sampleable region; plus a block of maps whose goal is unreachable, queried with several starts / goal states, for "
+         "every planner that reports approximate solutions) and with the planners' declared parameters swept through the ParamSet, under evaluation "
          "budgets, every run in its own process; every solve report carries facts from an "
          "oracle independent of the planner (own validity predicate, dense re-sampling along interpolate, recomputed goal "
          "distance, motion re-check) and is judged by TLC against PlannerContract.tla, which also re-validates each path on "
@@ -155,7 +158,7 @@ CHECKS["C03"] = dict(
          "graph; histories are walks through it plus the k-sweep solve(k); solve(k2) with the termination condition first "
          "firing at every evaluation index k = 0,1,2,..., plus a targeted block for 'clear() forgets the old query' (multi-goal "
          "first query behind a detour, continued solves, clear / new definition, new query where the old far goal was); they "
-         "are executed on all 45 planners (declared parameters swept) over an allocation-counting state space; the "
+         "are executed on all 45 planners (declared parameters swept, short ranges included) over an allocation-counting state space; the "
          "PlannerInputStates cursor and the lazy goal-sampling thread have their own models (InputStates.tla, GoalLazy.tla); "
          "the control planners have a life-cycle add-on; each recorded execution is replayed through the same TLA+ actions and every report is judged by "
          "PlannerLifecycleTrace: status truthful, nothing empty/half-built, path facts of C01 for every added solution, return "
@@ -207,7 +210,8 @@ CHECKS["C17"] = dict(
     text="PathOps.tla transcribes subdivide / interpolate() / interpolate(count) on integer paths; TLC checks the densification "
          "contract on every path of <= 4 (5) segments x counts 0..14 (16) and each of the 162k (633k) cases is replayed exactly on "
          "PathGeometric. Every simplifier / hybridization routine is run on thousands of valid input paths (planner outputs, "
-         "synthetic zig-zags with repeated states, non-metric space, field objective, interrupted simplify) in forked, "
+         "synthetic zig-zags with repeated states, non-metric space, field objective, interrupted simplify, single perturbation "
+         "steps whose window swallows whole segments) in forked, "
          "individually seeded chains; each call's before/after report (endpoints, oracle validity, length, cost, check()) is "
          "validated by TLC against SimplifierContract.tla.",
     note="Validity oracle with clearance margin (library predicate clearance >= 2r, oracle >= r/2) so re-discretisation cannot "
@@ -219,7 +223,8 @@ CHECKS["C18"] = dict(
     text="PTC.tla models condition terms as graphs of impl objects (Pred, Always, Never, Iter(n), Or, And, ExactSoln) with "
          "per-object terminate flags, C++ evaluation order and short-circuiting; TLC checks TerminateSticky, OrAndTruth, "
          "Constants, IterThreshold, ExactMirrors over all terms of depth <= 1 (and sampled/all depth-2 terms) and every edge of "
-         "the exported graphs is replayed on terms built with the real factory functions, comparing every eval() result and "
+         "the exported graphs is replayed on terms built with the real factory functions (the direct form in its three spellings: "
+         "no period, period 0, negative period), comparing every eval() result and "
          "predicate-invocation count; PTCPeriodic.tla (evaluator thread + caller + clock) is checked for the lag bound, "
          "no-predicate-call-on-caller and thread termination (liveness under fairness); CostConvergence.tla transcribes "
          "processNewSolution with exact rationals and all 24,576 (625k) cost sequences are replayed through the real condition; "
@@ -235,7 +240,8 @@ CHECKS["C19"] = dict(
          "guarded hooks (thread, resource, read/write, atomicity from the declared type, measured lockset, fork/join) are "
          "validated by TLC against SharedMemTrace.tla: vector-clock/lockset data-race rule plus contract events (counters = "
          "calls, seeds = sequential set, unique names, complete ranked solution set, exact GNAT answers, terminate observed "
-         "and sticky). Inside the multi-threaded planners: protocol models PRRT, PSBL, PRMTwoThread, CForestShare, APSShare, "
+         "and sticky, log messages delivered to the installed handler only - ConsoleLog.tla models the console lock and its "
+         "read-before-lock variant must be refuted). Inside the multi-threaded planners: protocol models PRRT, PSBL, PRMTwoThread, CForestShare, APSShare, "
          "GoalStatesSample at the code's atomicity (safety + termination under fairness; the uncorrected transcription must "
          "fail as a vacuity gate), hooked runs of pRRT, pSBL, PRM, CForest, AnytimePathShortening under seeded schedule "
          "perturbation validated by TLC (race rule with lock-edge happens-before, mutex-ownership rules, PSBLTrace protocol "
@@ -250,7 +256,8 @@ CHECKS["C20"] = dict(
          "all call histories and emits them; each history runs in its own fresh process and TLC (Determinism.tla) validates that "
          "equal abstract seeds gave equal values across processes. RngStream.tla models one RNG with its distribution caches; "
          "TLC checks ReseedReproduces (and sees the stale-cache variant fail); every pre/reseed/post scenario is replayed "
-         "bitwise. Every single-threaded planner (declared parameters swept) runs twice in separate processes per problem/seed/budget; the complete "
+         "bitwise. Every single-threaded planner (declared parameters swept) runs twice in separate processes per problem/seed/budget, "
+         "also on a lattice space whose samplers only hand out lattice points (exact distance ties, repeated states); the complete "
          "outcomes (status, evaluation count, hash of all validity queries, solution bits) are validated by TLC.",
     note="Same binary and machine; separate processes. Planner runs sampled.",
     technique="TLA+ spec + TLC; fresh-process scenario replay; TLC validation of paired run observations",
